@@ -40,6 +40,8 @@ function plan (ctx, o) {
   const per = o.catalogPerShard || 120
   for (const c of chunk(rng.shuffle(items), per)) shards.push({ kind: 'catalog', items: c })
   if (o.zoo !== false) for (const eol of EOLS) shards.push({ kind: 'zoo', eol })
+  // zoo programs with operations spliced onto random sub-expressions (value-preserving, runnable)
+  if (o.zoo !== false) { const nz = ctx.tier === 'thorough' ? 24 : 2; for (let k = 0; k < nz; k++) shards.push({ kind: 'zoosplice', stream: k }) }
   let nRandom = ctx.tier === 'thorough' ? (o.thoroughRandom || 20000) : (o.quickRandom || 600)
   if (process.env.VERIF_ONLY_FORMS || process.env.VERIF_ONLY_PLACEMENTS) nRandom = 100 // debugging aid: catalogue subset only
   const perR = o.randomPerShard || 100
@@ -66,6 +68,19 @@ function jobs (spec, ctx) {
         const eol = spec.eol || 'lf'
         if (eol !== 'lf') { prog.meta.eol = eol; prog.meta.sigBase += ':' + eol }
         out.push({ code: withEol(prog.code, eol), file: FILES[i % FILES.length], meta: prog.meta, config: SETS[cfgName], cfgKey: cfgName, cfgName })
+      }
+    })
+  } else if (spec.kind === 'zoosplice') {
+    const rng = new Rng(ctx.seed, 'zoosplice', ctx.id, spec.stream)
+    zoo.ZOO.forEach((entry, i) => {
+      for (let v = 0; v < 3; v++) {
+        const prog = zoo.build(entry)
+        const sp = require('./gen_splice').spliceRunnable(rng.fork(i * 7 + v), prog.code, !!prog.meta.module)
+        if (!sp) continue
+        const cfgName = ['FULL', 'RENAMED', 'FULL'][v]
+        prog.meta.sigBase = `zoosplice:${prog.meta.zoo}`
+        prog.meta.splices = sp.splices
+        out.push({ code: sp.code, file: FILES[i % FILES.length], meta: prog.meta, config: SETS[cfgName], cfgKey: cfgName, cfgName })
       }
     })
   } else if (spec.kind === 'random') {
